@@ -3,7 +3,7 @@ import Drivers.Util
 /-! Driver for the identifier model (C09, C31).
 Request line: `<hex name>`, optionally TAB `rust=<hex> c=<hex>` (the real `to_rust_ident` / `to_c_ident` outputs)
 Answer: `rust=<hex> c=<hex> snake=<hex> camel=<hex> pascal=<hex> shouty=<hex> valid=<0|1>`
-        ` rcamel=<hex> rkw=<0|1> ckw=<0|1> rtemp=<0|1> ctemp=<0|1> rckw=<0|1> skw=<0|1> rpre=<0|1> rfn=<0|1>`   (rpre: rcamel is a prelude name the Rust templates use unqualified)
+        ` rcamel=<hex> rkw=<0|1> ckw=<0|1> rtemp=<0|1> ctemp=<0|1> rckw=<0|1> skw=<0|1> rpre=<0|1> rfn=<0|1> rgp=<0|1>`   (rpre: rcamel is a prelude name the Rust templates use unqualified)
   rcamel = crates/rust `to_upper_camel_case`; rkw/ckw: the model's identifier is a Rust-2024 / C++23 keyword;
   rtemp/ctemp: the model's identifier can be bound by a generator-emitted local;
   rckw: rcamel is a Rust keyword (`Self`); skw: the package-module component `to_rust_ident(name_package_module ..)` of an unversioned package of that name is a Rust keyword.
@@ -23,7 +23,7 @@ def handle (line : String) : String :=
   | some n =>
     let r := toRustIdent n
     let c := toCIdent n
-    let model := s!"rust={charsToHex r} c={charsToHex c} snake={charsToHex (Heck.snake n)} camel={charsToHex (upperCamel n)} pascal={charsToHex (upperCamel n)} shouty={charsToHex (shouty n)} valid={b01 (PkgSpec.validName n)} rcamel={charsToHex (toUpperCamelRust n)} rkw={b01 (RustKeywords.keywords2024.contains r)} ckw={b01 (CppKeywords.keywords23.contains c)} rtemp={b01 (clashesWithRustLocal r)} ctemp={b01 (clashesWithCppLocal c)} rckw={b01 (RustKeywords.keywords2024.contains (toUpperCamelRust n))} skw={b01 (RustKeywords.keywords2024.contains (toRustIdent (Heck.snake n)))} rpre={b01 (capturesPrelude n)} rfn={b01 (clashesWithGeneratedFn n)}"
+    let model := s!"rust={charsToHex r} c={charsToHex c} snake={charsToHex (Heck.snake n)} camel={charsToHex (upperCamel n)} pascal={charsToHex (upperCamel n)} shouty={charsToHex (shouty n)} valid={b01 (PkgSpec.validName n)} rcamel={charsToHex (toUpperCamelRust n)} rkw={b01 (RustKeywords.keywords2024.contains r)} ckw={b01 (CppKeywords.keywords23.contains c)} rtemp={b01 (clashesWithRustLocal r)} ctemp={b01 (clashesWithCppLocal c)} rckw={b01 (RustKeywords.keywords2024.contains (toUpperCamelRust n))} skw={b01 (RustKeywords.keywords2024.contains (toRustIdent (Heck.snake n)))} rpre={b01 (capturesPrelude n)} rfn={b01 (clashesWithGeneratedFn n)} rgp={b01 (capturedByGenericParam n)}"
     match parts with
     | [_, impl] =>
       let fs := impl.splitOn " "
